@@ -318,9 +318,10 @@ func segmentations(n int, bounds []int, pairsUpTo int, seed int64) []seg {
 // ---- the C01 oracle ----
 
 type stCase struct {
-	entry string // "read" | "conn"
-	end   string // "clean" | "error"
-	sg    seg
+	entry   string // "read" | "conn"
+	end     string // "clean" | "error"
+	sg      seg
+	readErr error // the error the reader ends with
 }
 
 func c01Check(res *Result, t *byteTable, b *stBeh, in string, want stResult, cs stCase, evs []ev, err error, extra map[string]any) {
@@ -383,8 +384,9 @@ func c01Check(res *Result, t *byteTable, b *stBeh, in string, want stResult, cs 
 			}
 			res.addNote("conn_nil_left_to_C11", 1)
 		}
-		if strictErrors && err != nil && !errors.Is(err, errBoom) {
-			fail("stream:"+cs.entry+":error-identity", "%s(%s) ended by the read error %q reported %q", cs.entry, clipBytes(in), errBoom, err)
+		want2 := cs.readErr
+		if strictErrors && err != nil && !errors.Is(err, want2) {
+			fail("stream:"+cs.entry+":error-identity", "%s(%s) ended by the read error %q reported %q", cs.entry, clipBytes(in), want2, err)
 		}
 		if strictErrors && err != nil && errors.Is(err, sse.ErrUnexpectedEOF) {
 			fail("stream:"+cs.entry+":error-identity", "%s(%s) ended by a read error reported ErrUnexpectedEOF", cs.entry, clipBytes(in))
@@ -446,17 +448,21 @@ func cmdStream(args []string) {
 		if nontriv {
 			res.nontrivial(strings.Join(b.Input, " "))
 		}
-		for _, end := range []string{"clean", "error"} {
+		for _, end := range []string{"clean", "error", "error-wrapping-eof"} {
 			pair := b.Clean
 			endErr := io.EOF
 			if end == "error" {
 				pair, endErr = b.Error, errBoom
 			}
+			if end == "error-wrapping-eof" {
+				// a read error that wraps io.EOF is still a read error: nothing pending is dispatched
+				pair, endErr, end = b.Error, errWrapEOF, "error"
+			}
 			for _, sg := range segs {
 				// sse.Read
 				o := runRead(&segReader{s: input, cuts: sg.cuts, end: endErr, together: sg.together, zeroAt: sg.zeroAt}, nil, 0)
 				res.eval(1)
-				cs := stCase{"read", end, sg}
+				cs := stCase{"read", end, sg, endErr}
 				if o.panicked != nil {
 					res.violate(fmt.Sprintf("Read(%s) panicked: %v", clipBytes(input), o.panicked), "stream:read:panic", map[string]any{"driver": "stream", "behaviour": b})
 				} else {
@@ -469,7 +475,7 @@ func cmdStream(args []string) {
 				// Connection
 				co := runConn(context.Background(), &segReader{s: input, cuts: sg.cuts, end: endErr, together: sg.together, zeroAt: sg.zeroAt}, nil, 0)
 				res.eval(1)
-				cs = stCase{"conn", end, sg}
+				cs = stCase{"conn", end, sg, endErr}
 				if co.panicked != nil {
 					res.violate(fmt.Sprintf("Connect(%s) panicked: %v", clipBytes(input), co.panicked), "stream:conn:panic", map[string]any{"driver": "stream", "behaviour": b})
 				} else {
